@@ -120,7 +120,12 @@ where
     S: AsyncRead + AsyncWrite + Unpin + Send + 'static,
 {
     let hyper_io = TokioIo::new(stream);
-    let exec = auto::Builder::new(TokioExecutor::new());
+    let mut exec = auto::Builder::new(TokioExecutor::new());
+    // A client may shut down its writing side as soon as it has sent its request (and, after a
+    // `CONNECT`, whatever it wants to say to the target): by default hyper takes that
+    // end-of-stream for a disconnect and drops the request that is still being served, so the
+    // client would get neither our answer nor the target's.
+    exec.http1().half_close(true);
     let service = service_fn(move |req| do_proxy_request(req, client_addr, hr));
     exec.serve_connection_with_upgrades(hyper_io, service).await
 }
